@@ -10,7 +10,7 @@ if ! (cd $d && patch -s -p1 < $src/patch.diff); then echo "PATCH FAILED"; rm -rf
 b=$(cd $d && gofmt -l . ; go build ./... 2>&1 | head -3; go vet ./... 2>&1 | head -3; GOARCH=386 go vet ./... 2>&1 | head -3)
 suite=$(cd $d && go test -vet=off -count=1 ./... 2>&1 | tail -1)
 [ -f $src/check_test.go ] && cp $src/check_test.go $d/zz_ref_check_test.go
-chk=$(cd $d && go test -vet=off -count=1 -run 'TestRefactor' . 2>&1 | tail -1)
+chk=$(cd $d && go test -vet=off -count=1 -run 'TestRefactor|TestFeature|TestOpen' . 2>&1 | tail -1)
 rm -f $d/zz_ref_check_test.go
 echo "build/vet=[$b] suite: $suite | check_test: $chk"
 fired=""
